@@ -16,6 +16,12 @@ pub enum State {
     NoCheckpoint,
     Clean,
     Edits(Vec<String>),
+    /// a checkpoint whose id is empty (`checkpoint update -i ''`), then new files
+    EmptyId(Vec<String>),
+    /// a checkpoint, then new files committed after it
+    Committed(Vec<String>),
+    /// a checkpoint, new files recorded as pending (`checkpoint update -p`), then more new files
+    Pending(Vec<String>, Vec<String>),
 }
 #[derive(Debug, Clone, Serialize, Deserialize, PartialEq)]
 pub enum Mode {
@@ -41,7 +47,7 @@ pub struct Case {
 pub fn strategy() -> impl Strategy<Value = Case> {
     (
         gen::raw_config(8, 3, 2),
-        0u8..5,
+        0u8..9,
         vec((0u8..9, any::<u16>(), any::<u16>()), 1..=5),
         0u8..4,
         vec(any::<u16>(), 1..=3),
@@ -87,11 +93,19 @@ pub fn strategy() -> impl Strategy<Value = Case> {
             let state = match state_k {
                 0 => State::NoCheckpoint,
                 1 => State::Clean,
-                _ => {
+                k => {
                     let mut v: Vec<String> = rc.iter().map(|&(k, a, b)| gen::change_path(&config, k, a, b)).collect();
                     v.sort();
                     v.dedup();
-                    State::Edits(v)
+                    match k {
+                        5 | 6 => State::EmptyId(v),
+                        7 => State::Committed(v),
+                        8 => {
+                            let later = v.split_off(v.len() / 2);
+                            State::Pending(v, later)
+                        }
+                        _ => State::Edits(v),
+                    }
                 }
             };
             let mut chosen: Vec<String> = picks.iter().map(|&p| config.targets[pick(p, n)].path.clone()).collect();
@@ -223,6 +237,36 @@ pub fn check(case: &Case, w: usize) -> CheckResult {
                 return inconclusive(e);
             }
             created = bb::create_files(&env, paths, true);
+        }
+        State::EmptyId(paths) => {
+            if let Err(e) = bb::commit_all_and_checkpoint(&mut env) {
+                return inconclusive(e);
+            }
+            let o = env.mr(&["checkpoint", "update", "-i", ""]);
+            if !o.ok() {
+                return inconclusive(format!("checkpoint update -i '' failed: {}", o.brief()));
+            }
+            created = bb::create_files(&env, paths, true);
+        }
+        State::Committed(paths) => {
+            if let Err(e) = bb::commit_all_and_checkpoint(&mut env) {
+                return inconclusive(e);
+            }
+            created = bb::create_files(&env, paths, true);
+            if let Err(e) = env.git_ok(&["add", "-A"]).and_then(|_| env.git_ok(&["commit", "-q", "--allow-empty", "-m", "more"])) {
+                return inconclusive(e);
+            }
+        }
+        State::Pending(first, later) => {
+            if let Err(e) = bb::commit_all_and_checkpoint(&mut env) {
+                return inconclusive(e);
+            }
+            created = bb::create_files(&env, first, true);
+            let o = env.mr(&["checkpoint", "update", "-p"]);
+            if !o.ok() {
+                return inconclusive(format!("checkpoint update -p failed: {}", o.brief()));
+            }
+            created.extend(bb::create_files(&env, later, true));
         }
     }
     // reference: analyze immediately before the run
@@ -389,6 +433,9 @@ pub fn check(case: &Case, w: usize) -> CheckResult {
         State::NoCheckpoint => "state=no-checkpoint",
         State::Clean => "state=clean",
         State::Edits(_) => "state=edits",
+        State::EmptyId(_) => "state=checkpoint-with-empty-id+edits",
+        State::Committed(_) => "state=commits-after-the-checkpoint",
+        State::Pending(..) => "state=pending-recorded+edits",
     };
     Ok(CaseInfo::new(proper || bigger_closure)
         .class(&format!("mode={}", mode_name))
